@@ -28,6 +28,10 @@ VARS9 = [''] + FULL + HALF
 INFV = [''] + FULL + (['LH', 'RH'] if HAVE_INF_HALF else [])
 INC = ['glm/glm.hpp', 'glm/ext/matrix_clip_space.hpp', 'glm/ext/matrix_projection.hpp', 'glm/ext/matrix_transform.hpp', 'glm/gtc/matrix_transform.hpp']
 U = Unit('c08', includes=INC + ['cmath'])
+VPT = {'i': ('int', 'int'), 'u': ('unsigned', 'glm::uint')}
+def vp_types(t):
+    """viewport element types U != T: tag -> (wrapper ctype, glm type)"""
+    d = dict(VPT); d['x'] = ('double', 'double') if t == 'f32' else ('float', 'float'); return d
 def args(n): return ', '.join('a[%d]' % k for k in range(n))
 for t, c in FT.items():
     U.add('ortho2d_' + t, [(c, 4)], [(c, 16)], 'stm(o, glm::ortho(%s));' % args(4))
@@ -55,8 +59,16 @@ for t, c in FT.items():
               'stv(o, glm::unProject%s(glm::project%s(%s), ldm<4,4,%s>(b), ldm<4,4,%s>(c), ldv<4,%s>(d)));' % (v, v, PJ, c, c, c))
         U.add('proj_unproj%s_%s' % (v, t), [(c, 3), (c, 16), (c, 16), (c, 4)], [(c, 3)],
               'stv(o, glm::project%s(glm::unProject%s(%s), ldm<4,4,%s>(b), ldm<4,4,%s>(c), ldv<4,%s>(d)));' % (v, v, PJ, c, c, c))
-    for v in ('ZO', 'NO'):
-        U.add('project%s_ivp_%s' % (v, t), [(c, 3), (c, 16), (c, 16), ('int', 4)], [(c, 3)], 'stv(o, glm::project%s(ldv<3,%s>(a), ldm<4,4,%s>(b), ldm<4,4,%s>(c), ldv<4,int>(d)));' % (v, c, c, c))
+    # project / unProject / pickMatrix are templated on the viewport's element type U: int, uint and the other float type as U
+    for vt, (vc, vg) in vp_types(t).items():
+        PJV = 'ldv<3,%s>(a), ldm<4,4,%s>(b), ldm<4,4,%s>(c), ldv<4,%s>(d)' % (c, c, c, vg)
+        sig = [(c, 3), (c, 16), (c, 16), (vc, 4)]
+        for v in ('', 'ZO', 'NO'):
+            U.add('project%s_%svp_%s' % (v, vt, t), sig, [(c, 3)], 'stv(o, glm::project%s(%s));' % (v, PJV))
+            U.add('unProject%s_%svp_%s' % (v, vt, t), sig, [(c, 3)], 'stv(o, glm::unProject%s(%s));' % (v, PJV))
+            U.add('unproj_proj%s_%svp_%s' % (v, vt, t), sig, [(c, 3)],
+                  'stv(o, glm::unProject%s(glm::project%s(%s), ldm<4,4,%s>(b), ldm<4,4,%s>(c), ldv<4,%s>(d)));' % (v, v, PJV, c, c, vg))
+        U.add('pickMatrix_%svp_%s' % (vt, t), [(c, 2), (c, 2), (vc, 4), (c, 1)], [(c, 16)], 'stm(o, glm::pickMatrix(ldv<2,%s>(a), ldv<2,%s>(b), ldv<4,%s>(c)));' % (c, c, vg))
     U.add('pickMatrix_' + t, [(c, 2), (c, 2), (c, 4), (c, 1)], [(c, 16)], 'stm(o, glm::pickMatrix(ldv<2,%s>(a), ldv<2,%s>(b), ldv<4,%s>(c)));' % (c, c, c))
 
 CONFIGS = {'RH_NO': [], 'LH_NO': ['GLM_FORCE_LEFT_HANDED'], 'RH_ZO': ['GLM_FORCE_DEPTH_ZERO_TO_ONE'], 'LH_ZO': ['GLM_FORCE_LEFT_HANDED', 'GLM_FORCE_DEPTH_ZERO_TO_ONE']}
@@ -239,15 +251,18 @@ def dispatch_list():
         for v in [''] + HALF: L.append((fam, v))
     for v in INFV:
         if v not in FULL: L.append(('infinitePerspective', v))
-    for fam in ('project', 'unProject'): L.append((fam, ''))
+    for fam in ('project', 'unProject'):
+        L.append((fam, ''))
+        for vt in ('i', 'u', 'x'): L.append((fam, '', '_%svp' % vt))
     return L
 def job_dispatch(cfg, t):
     def run(S):
         Ux = UC[cfg]
-        for fam, v in dispatch_list():
+        for fam, v, *sfx in dispatch_list():
+            sfx = sfx[0] if sfx else ''
             if fam in ('project', 'unProject'): sel = cfg.split('_')[1]
             else: sel = selected(v, cfg)
-            f1 = '%s%s_%s' % (fam, v, t); f2 = '%s%s_%s' % (fam, sel, t)
+            f1 = '%s%s%s_%s' % (fam, v, sfx, t); f2 = '%s%s%s_%s' % (fam, sel, sfx, t)
             try:
                 r1 = sym_call(Ux, f1, mode='fp'); r2 = sym_call(Ux, f2, ins=r1.ins, mode='fp')
             except Unsupported as e:
@@ -388,13 +403,155 @@ def job_pick(t):
             return g
         S.check_fn(U, 'pickMatrix_' + t, spec, lambda i: [i[1][0] > 0, i[1][1] > 0, i[2][2] != 0, i[2][3] != 0], mode='real', bounds='delta > 0, viewport w,h != 0')
     return run
-def job_project_ivp(t):
+# ----------------------------------------------------------------------------- viewports whose element type U differs from T (int, uint, the other float type)
+VPW = [z3.Real('vpr%d' % k) for k in range(4)]
+def _mentions(t, vars_):
+    ids = {v.get_id() for v in vars_}; seen = set(); st = [t]
+    while st:
+        x = st.pop()
+        if x.get_id() in seen: continue
+        seen.add(x.get_id())
+        if x.get_id() in ids: return True
+        st.extend(x.children())
+    return False
+def check_vp(S, fname, spec, pre, vpi=3, ins=None, name=None, timeout=None, mandatory=True, bounds='', side=True):
+    """check_fn(mode='real') for a wrapper whose viewport (input vpi) may have an integer element type.  The code reaches an integer viewport through T(viewport[k])
+    (sitofp/uitofp: to_real(bv2int(.)) once rounding is erased).  Stage 1 replaces every such conversion term by a real constant vpr_k (a generalisation: unsat for all
+    reals implies unsat for the integer-valued ones) which leaves a pure real-arithmetic query when the code uses the viewport only through these conversions.  Whatever
+    stage 1 does not discharge (e.g. integer arithmetic on the viewport components) is decided on the unabstracted mixed bit-vector/real query with native replay."""
+    fn = U.fns[fname]; name = name or 'c08.' + fname; vc = fn.ins[vpi][0]; timeout = timeout or S.cap(60, 180)
+    if ct_kind(vc) == 'f':
+        return S.check_fn(U, fname, spec, pre, mode='real', ins=ins, name=name, timeout=timeout, mandatory=mandatory, bounds=bounds, side=side)
+    try: res = sym_call(U, fname, ins=ins, mode='real')
+    except Unsupported as e:
+        S.rec(name=name, kind='encode', result='unsupported', status='not-encoded', note=str(e), mandatory=mandatory, functions=[fname])
+        if mandatory: S.inconclusive.append('%s [not encoded: %s]' % (name, e))
+        return None
+    vb = res.ins[vpi]; conv = [z3.ToReal(z3.BV2Int(x, ct_kind(vc) == 's')) for x in vb]; sub = list(zip(conv, VPW))
+    A = lambda t_: z3.substitute(t_, *sub)
+    ins_c = [list(r) for r in res.ins]; ins_c[vpi] = conv          # the viewport as the code sees it
+    ins_a = [list(r) for r in res.ins]; ins_a[vpi] = VPW           # ... abstracted
+    outs_a = [[RV(o.n, A(o.r)) if isinstance(o, RV) else o for o in row] for row in res.outs]
+    spec_c = lambda i, o: spec([list(r) for r in i[:vpi]] + [[z3.ToReal(z3.BV2Int(x, ct_kind(vc) == 's')) for x in i[vpi]]] + [list(r) for r in i[vpi + 1:]], o)
+    pre_c = (lambda i: pre([list(r) for r in i[:vpi]] + [[z3.ToReal(z3.BV2Int(x, ct_kind(vc) == 's')) for x in i[vpi]]] + [list(r) for r in i[vpi + 1:]])) if pre else None
+    hy_c = list(pre(ins_c) if pre else []) + res.axioms
+    hy_a = list(pre(ins_a) if pre else []) + [A(x) for x in res.axioms]
+    fnlist = ['w_%s -> %s' % (fname, fn.body.strip().replace('\n', ' ')[:160])]
+    binfo = bounds + '; viewport element type %s, every value; ll=%s' % (vc, U.ll_sha())
+    S.prove(name + '.witness', z3.BoolVal(False), hy_a, timeout=S.cap(20, 60), kind='witness', functions=fnlist, bounds=binfo, expect='sat', mandatory=False)
+    def two_stage(oname, g_a, g_c, kind, replay):
+        if not _mentions(g_a, vb) and not any(_mentions(h, vb) for h in hy_a):
+            r, m, dt, used = S.query(hy_a + [z3.Not(g_a)], timeout, 'z3')
+            if r == 'unsat':
+                S.rec(name=oname, kind=kind, functions=fnlist, bounds=binfo, solver=used + ' (viewport int->float conversions abstracted to real constants)', result='unsat', time_s=round(dt, 3),
+                      status='discharged', mandatory=mandatory); return
+        S.prove(oname, g_c, hy_c, timeout=timeout, kind=kind, functions=fnlist, bounds=binfo + '; mixed bit-vector/real query', replay=replay, mandatory=mandatory)
+    if side:
+        groups = {}
+        for kind, cond, d in res.obligations: groups.setdefault((kind, d), []).append(cond)
+        for (kind, d), conds in groups.items():
+            g = z3.Not(z3.Or(*conds)) if len(conds) > 1 else z3.Not(conds[0])
+            two_stage('%s.%s[%s]' % (name, kind, d[:60]), A(g), g, kind, None)
+    ga = spec(ins_a, outs_a); gc = spec(ins_c, res.outs)
+    for (label, a_), (_, c_) in zip(ga, gc):
+        oname = '%s.%s' % (name, label)
+        two_stage(oname, goal_term(a_), goal_term(c_), 'spec', S._replayer(res, (spec_c, label), pre_c, U, fname, 'real', oname))
+    return res
+
+def pre_clipw(i): return [clipw(i) != 0]
+def job_project_vp(t, vt):
+    """project*(obj, model, proj, vec<4,U>) for U != T: general specification (symbolic matrices) and clip cube -> viewport rectangle"""
     def run(S):
+        for v in ('ZO', 'NO', ''):
+            depth = v or 'NO'; fname = 'project%s_%svp_%s' % (v, vt, t)
+            check_vp(S, fname, proj_spec(depth), pre_clipw, timeout=S.cap(60, 200), bounds='symbolic 4x4 model and proj, symbolic viewport; clip w != 0')
+            zn = -1 if depth == 'NO' else 0
+            for a in (-1, 1):
+                for b in (-1, 1):
+                    for (zc, wz) in ((zn, 0), (1, 1)):
+                        ins = [[z3.RealVal(a), z3.RealVal(b), z3.RealVal(zc)], IDENT, IDENT, mkvars(U.fns[fname], 'real')[3]]
+                        def spec(i, o, a=a, b=b, wz=wz):
+                            w_ = i[3]; return [('x', REq(rv(o[0][0]), w_[0] + (w_[2] if a == 1 else 0))), ('y', REq(rv(o[0][1]), w_[1] + (w_[3] if b == 1 else 0))), ('depth', REq(rv(o[0][2]), z3.RealVal(wz)))]
+                        check_vp(S, fname, spec, None, ins=ins, name='c08.%s.cube(%d,%d,%d)' % (fname, a, b, zc), bounds='clip-cube corner, model = proj = I, symbolic viewport')
+    return run
+F32_ONE = 0x3f800000; F64_ONE = 0x3ff0000000000000
+def job_cube_bits(t, vt):
+    """bit-exact (IEEE) version of clip cube -> viewport rectangle for integer viewports: with model = proj = I every intermediate value is exactly representable, so the
+    result must equal the exactly converted integer corner x0 (+ width), y0 (+ height) whatever the evaluation order - for every integer viewport inside the stated range"""
+    c = FT[t]; w = ct_bits(c); one = F32_ONE if w == 32 else F64_ONE; vc = vp_types(t)[vt][0]; sg = ct_kind(vc) == 's'
+    def fb(x): return z3.BitVecVal(float_to_bits(float(x), w), w)
+    identb = [fb(1 if k % 5 == 0 else 0) for k in range(16)]
+    LIM = 1 << 23
+    def run(S):
+        for v in ('ZO', 'NO', ''):
+            depth = v or 'NO'; fname = 'project%s_%svp_%s' % (v, vt, t); zn = -1 if depth == 'NO' else 0
+            for a in (-1, 1):
+                for b in (-1, 1):
+                    for (zc, wz) in ((zn, 0), (1, 1)):
+                        ins = [[fb(a), fb(b), fb(zc)], identb, identb, mkvars(U.fns[fname], 'fp')[3]]
+                        def ext(x): return (z3.SignExt(32, x) if sg else z3.ZeroExt(32, x))
+                        def tofp(x): return z3.fpSignedToFP(RNE, x, FSORT[w])
+                        def spec(i, o, a=a, b=b, wz=wz):
+                            d = i[3]
+                            return [('x', z3.fpEQ(o[0][0].fp, tofp(ext(d[0]) + (ext(d[2]) if a == 1 else 0)))), ('y', z3.fpEQ(o[0][1].fp, tofp(ext(d[1]) + (ext(d[3]) if b == 1 else 0)))),
+                                    ('depth', z3.fpEQ(o[0][2].fp, FPV(float(wz), w)))]
+                        def pre(i):
+                            if w == 64: return []          # every 32-bit integer and every sum of two is a double
+                            d = i[3]
+                            if sg: return [d[k] > -LIM for k in range(4)] + [d[k] < LIM for k in range(4)]
+                            return [z3.ULT(d[k], LIM) for k in range(4)]
+                        S.check_fn(U, fname, spec, pre, mode='fp', ins=ins, name='c08.%s.cube-bits(%d,%d,%d)' % (fname, a, b, zc), witness=False, validate=0, timeout=S.cap(60, 120),
+                                   bounds='bit-exact; clip-cube corner, model = proj = I, ' + ('every 32-bit viewport' if w == 64 else '|viewport components| < 2^23 (exactly representable sums)'))
+    return run
+def job_roundtrip_vp(t, vt, fams):
+    """unProject(project(p)) == p and the direct specification of unProject for U != T"""
+    def PMof(i): return matmul(i[2], i[1])
+    def run(S):
+        for fam in fams:
+            mand = fam in MANDATORY_FAM
+            for v in ('NO', 'ZO', ''):
+                depth = v or 'NO'
+                fn1 = 'unproj_proj%s_%svp_%s' % (v, vt, t); fn2 = 'unProject%s_%svp_%s' % (v, vt, t)
+                p = [z3.Real('p%d' % k) for k in range(3)]; model, proj = FAMILIES[fam](); ins = [p, model, proj, mkvars(U.fns[fn1], 'real')[3]]
+                hy = lambda i: [det4(PMof(i)) != 0, mulv(PMof(i), [i[0][0], i[0][1], i[0][2], 1])[3] != 0, i[3][2] != 0, i[3][3] != 0]
+                check_vp(S, fn1, lambda i, o: [('p[%d]' % k, REq(rv(o[0][k]), i[0][k])) for k in range(3)], hy, ins=ins, side=False, name='c08.%s.%s' % (fn1, fam), timeout=S.cap(40, 120), mandatory=mand,
+                         bounds='unProject(project(p)) == p; det(proj*model) != 0, clip w != 0, viewport w,h != 0; ' + fam)
+                def wadj(i, depth=depth):
+                    n = win_to_ndc(i[0], i[3], depth); PM = PMof(i)
+                    return sum(cof4(PM, cc, 3) * n[cc] for cc in range(4))
+                hy2 = lambda i: [det4(PMof(i)) != 0, wadj(i) != 0, i[3][2] != 0, i[3][3] != 0]
+                def spec(i, o, depth=depth):
+                    n = win_to_ndc(i[0], i[3], depth)
+                    c_ = mulv(PMof(i), [rv(x) for x in o[0]] + [1])
+                    return [('clip[%d]~ndc' % k, REq(c_[k], n[k] * c_[3])) for k in range(3)]
+                check_vp(S, fn2, spec, hy2, ins=ins, name='c08.%s.%s' % (fn2, fam), timeout=S.cap(40, 120), mandatory=mand,
+                         bounds='proj*model*(unProject(win),1) is parallel to ndc(win); det != 0, un-projected w != 0, viewport w,h != 0; ' + fam)
+            # viewport rectangle corners x depth {0,1} -> clip cube corners (model = proj = I)
         for v in ('NO', 'ZO'):
-            def spec(i, o, v=v):
-                vp = [z3.ToReal(z3.BV2Int(x, True)) for x in i[3]]
-                return proj_spec(v)([i[0], i[1], i[2], vp], o)
-            S.check_fn(U, 'project%s_ivp_%s' % (v, t), spec, lambda i: [clipw(i) != 0], mode='real', timeout=S.cap(60, 200), bounds='integer viewport (vec<4,int>)', mandatory=False)
+            fn2 = 'unProject%s_%svp_%s' % (v, vt, t); zn = -1 if v == 'NO' else 0
+            for a in (-1, 1):
+                for b in (-1, 1):
+                    for (zc, wz) in ((zn, 0), (1, 1)):
+                        vpv = mkvars(U.fns[fn2], 'real')[3]
+                        # the window corner itself is a symbolic real tied to the viewport by hypothesis (win = corner of the rectangle)
+                        win = [z3.Real('win%d' % k) for k in range(3)]
+                        ins = [win, IDENT, IDENT, vpv]
+                        def pre(i, a=a, b=b, wz=wz): return [i[0][0] == i[3][0] + (i[3][2] if a == 1 else 0), i[0][1] == i[3][1] + (i[3][3] if b == 1 else 0), i[0][2] == wz, i[3][2] != 0, i[3][3] != 0]
+                        def spec(i, o, a=a, b=b, zc=zc): return [('x', REq(rv(o[0][0]), z3.RealVal(a))), ('y', REq(rv(o[0][1]), z3.RealVal(b))), ('z', REq(rv(o[0][2]), z3.RealVal(zc)))]
+                        check_vp(S, fn2, spec, pre, ins=ins, name='c08.%s.rect(%d,%d,%d)' % (fn2, a, b, zc), bounds='viewport-rectangle corner, model = proj = I, symbolic viewport with w,h != 0')
+    return run
+def job_pick_vp(t, vt):
+    def run(S):
+        def spec(i, o):
+            (cx, cy), (dx, dy), vp, (zs,) = i; g = []
+            for a in (-1, 1):
+                for b in (-1, 1):
+                    wx = cx + a * dx / 2; wy = cy + b * dy / 2
+                    nx = 2 * (wx - vp[0]) / vp[2] - 1; ny = 2 * (wy - vp[1]) / vp[3] - 1
+                    r = mulv(o[0], [nx, ny, zs, 1]); lab = '(%d,%d)' % (a, b)
+                    g += [(lab + '.x', REq(r[0], z3.RealVal(a))), (lab + '.y', REq(r[1], z3.RealVal(b))), (lab + '.z', REq(r[2], zs)), (lab + '.w', REq(r[3], z3.RealVal(1)))]
+            return g
+        check_vp(S, 'pickMatrix_%svp_%s' % (vt, t), spec, lambda i: [i[1][0] > 0, i[1][1] > 0, i[2][2] != 0, i[2][3] != 0], vpi=2, bounds='delta > 0, viewport w,h != 0')
     return run
 
 def jobs(tier):
@@ -403,8 +560,11 @@ def jobs(tier):
         J += [('ortho_' + t, job_ortho(t, ['2d'] + VARS9)), ('frustum_' + t, job_frustum(t, VARS9)), ('perspective_' + t, job_persp(t, VARS9)), ('perspectiveFov_' + t, job_fov(t, VARS9)),
               ('equiv_' + t, job_equiv(t, FULL)), ('infinite_' + t, job_inf(t, INFV + ['tweaked'])), ('assert_' + t, job_assert(t)), ('project_' + t, job_project(t)), ('pick_' + t, job_pick(t)),
               ('roundtrip_' + t, job_roundtrip(t, MANDATORY_FAM))]
+        for vt in vp_types(t):
+            J += [('project_%svp_%s' % (vt, t), job_project_vp(t, vt)), ('roundtrip_%svp_%s' % (vt, t), job_roundtrip_vp(t, vt, MANDATORY_FAM)), ('pick_%svp_%s' % (vt, t), job_pick_vp(t, vt))]
+            if vt in VPT: J.append(('cubebits_%svp_%s' % (vt, t), job_cube_bits(t, vt)))
         for cfg in CONFIGS: J.append(('dispatch_%s_%s' % (cfg, t), job_dispatch(cfg, t)))
     if not q:
         for t in FT:
-            J += [('roundtrip_opt1_' + t, job_roundtrip(t, ['model=affine,proj=perspective-pattern'])), ('roundtrip_opt2_' + t, job_roundtrip(t, ['general'])), ('project_ivp_' + t, job_project_ivp(t))]
+            J += [('roundtrip_opt1_' + t, job_roundtrip(t, ['model=affine,proj=perspective-pattern'])), ('roundtrip_opt2_' + t, job_roundtrip(t, ['general']))]
     return J
